@@ -68,7 +68,7 @@ def depthwise_predicates(fn: FunctionInfo) -> List[Tuple[str, Optional[bool]]]:
     return out
 
 
-def case_chain(fn: FunctionInfo, var_names: Tuple[str, ...]) -> List[Tuple[str, str]]:
+def case_chain(fn: FunctionInfo, var_names: Tuple[str, ...], repo=None) -> List[Tuple[str, str]]:
     """Ordered (variable, meta key) tests of the top-level if/elif chain in the loop body."""
     chains: List[List[Tuple[str, str]]] = []
 
@@ -95,10 +95,48 @@ def case_chain(fn: FunctionInfo, var_names: Tuple[str, ...]) -> List[Tuple[str, 
                             else 'other'))
                 cur = None
         return out
-    for n in ast.walk(fn.node):
-        if isinstance(n, ast.If):
-            c = chain_of(n)
-            chains.append(c)
+    fns = [fn]
+    if repo is not None:
+        # the chain may have been moved into a step helper of the function
+        from ..util import helper_closure
+        fns = helper_closure(repo, fn)
+    def keys_of(t):
+        alts = t.values if isinstance(t, ast.BoolOp) and isinstance(t.op, ast.Or) else [t]
+        out = []
+        for a in alts:
+            keys = []
+            for c in ast.walk(a):
+                if isinstance(c, ast.Subscript) and isinstance(c.value, ast.Attribute) and \
+                        c.value.attr == 'meta' and isinstance(c.slice, ast.Constant) and \
+                        isinstance(c.value.value, ast.Name) and c.value.value.id in var_names:
+                    keys.append((c.value.value.id, c.slice.value))
+            out.append(keys[0] if keys else ('', ast.unparse(a)[:40]))
+        return out
+
+    def seq_chain(stmts) -> List[Tuple[str, str]]:
+        """the same case analysis written as consecutive ``if test: return ...`` statements"""
+        best, cur = [], []
+        for k, st in enumerate(stmts):
+            if isinstance(st, ast.If) and not st.orelse and st.body and \
+                    isinstance(st.body[-1], (ast.Return, ast.Raise, ast.Continue)):
+                cur += keys_of(st.test)
+                continue
+            if cur:
+                cur.append(('else', 'raise' if isinstance(st, ast.Raise) else 'other'))
+                if len(cur) > len(best):
+                    best = cur
+            cur = []
+        if cur and len(cur) > len(best):
+            best = cur + [('else', 'other')]
+        return best
+    for g in fns:
+        for n in ast.walk(g.node):
+            if isinstance(n, ast.If):
+                c = chain_of(n)
+                chains.append(c)
+            body = getattr(n, 'body', None)
+            if isinstance(body, list) and isinstance(n, (ast.FunctionDef, ast.For, ast.While)):
+                chains.append(seq_chain(body))
     return max(chains, key=len) if chains else []
 
 
@@ -245,8 +283,8 @@ def r09a(ctx):
     # case chains
     afc = repo.fn('add_features_calculator')
     aif = repo.fn('associate_input_features')
-    c1 = case_chain(afc, ('n',))
-    c2 = case_chain(aif, ('n', 'prev'))
+    c1 = case_chain(afc, ('n',), repo)
+    c2 = case_chain(aif, ('n', 'prev'), repo)
     k1 = [k for v, k in c1 if v == 'n']
     k2 = [k for v, k in c2 if v in ('n', 'prev')]
     k2_prev = [k for v, k in c2 if v == 'prev']
